@@ -21,7 +21,7 @@ ANCHORS = ["State.__eq__", "Lanelet.__eq__", "Obstacle.__eq__", "Obstacle.__hash
            "TrafficSign.__eq__", "Intersection.__eq__"]
 REQUIRED = ["law.reflexive", "law.deepcopy", "law.symmetric", "law.twin", "law.perturbation", "law.hash-total",
             "law.hash-consistent", "defaults-instance", "law.kwargs-order", "law.cross-class-state", "law.optional-subsets", "law.derived-attribute-twin",
-            "coordinates-of-different-magnitude", "law.after-update_initial_state", "law.assembly-twin", "law.moved-after-compared", "law.other-representation", "law.inspected-twin",
+            "coordinates-of-different-magnitude", "law.after-update_initial_state", "law.assembly-twin", "law.moved-after-compared", "law.other-representation", "law.inspected-twin", "perturbation.emptied-collection",
             "class.Polygon.large", "class.Lanelet.large"]
 ASSUMPTIONS = ["perturbations are clearly different valid values (never a reordering or a duplicate)",
                "real perturbations are >= 1e-6, i.e. far above the documented 1e-10 resolution"]
@@ -299,6 +299,16 @@ def registry():
                                                                                       x != TrafficLightState.INACTIVE]],
                           "active": [p_bool], "direction": [p_enum],
                           "shape": [lambda g, v: g.rectangle(length=9.75)]})
+    # a light / sign whose position is not known (the formats allow a light without position; the readers produce None)
+    R["TrafficLight.positionless"] = (lambda g: (TrafficLight, dict(g.traffic_light_kw(g.r.randint(1, 99), True),
+                                                                    position=None),
+                                                 {"traffic_light_id": 4, "position": None}),
+                                      {"traffic_light_id": [p_int], "active": [p_bool], "direction": [p_enum],
+                                       "position": [lambda g, v: np.array([1.0, 2.0])]})
+    R["TrafficSign.positionless"] = (lambda g: (TrafficSign, dict(g.traffic_sign_kw(g.r.randint(1, 99)), position=None),
+                                                None),
+                                     {"traffic_sign_id": [p_int], "virtual": [p_bool], "first_occurrence": [p_set_add()],
+                                      "position": [lambda g, v: np.array([1.0, 2.0])]})
     R["IntersectionIncomingElement"] = (lambda g: (IntersectionIncomingElement, g.incoming_kw(g.r.randint(1, 99), True),
                                                    {"incoming_id": 3}),
                                         {"incoming_id": [p_int], "incoming_lanelets": [p_set_add()],
@@ -790,7 +800,14 @@ def run(ctx):
         # which values differ from the constructor defaults, so only reflexivity / deepcopy / hash laws are judged)
         if use_defaults:
             continue
-        for p, fns in sorted(perts.items()):
+        # ... plus, for every collection-valued parameter that is populated, the variant with NOTHING in it (the first
+        # element of a kind is a difference like any other -- whichever operand is on the left)
+        perts_all = {p_: list(fns_) for p_, fns_ in perts.items()}
+        for p_, v_ in kw.items():
+            if isinstance(v_, (list, set, dict)) and len(v_) > 0:
+                perts_all.setdefault(p_, []).append(lambda g, v, _t=type(v_): _t())
+                ctx.feature("perturbation.emptied-collection")
+        for p, fns in sorted(perts_all.items()):
             for j, fn in enumerate(fns):
                 y = safe(lambda: build(pert=(p, fn), defaults=use_defaults)[0])
                 if y[0] == "exc":
